@@ -195,6 +195,7 @@ handle_inst!(io_handle_n3, 3);
 handle_inst!(io_handle_n4, 4);
 
 vharness! {
+    //@ twin_replay: yes
     //@ props: C04
     //@ tier: quick
     //@ expect: fail
@@ -598,6 +599,7 @@ vharness! {
 }
 
 vharness! {
+    //@ twin_replay: yes
     //@ props: C20
     //@ tier: quick
     //@ expect: fail
